@@ -1,0 +1,17 @@
+//go:build verif
+
+package cli
+
+import "io"
+
+// VerifRunC16 runs the gojq command in-process with injected streams (verification hook for
+// property C16; compiled only with -tags verif).
+func VerifRunC16(args []string, stdin io.Reader, stdout, stderr io.Writer) int {
+	c16args := make([]string, len(args))
+	copy(c16args, args) // parseFlags rewrites its argument slice in place
+	return (&cli{
+		inStream:  stdin,
+		outStream: stdout,
+		errStream: stderr,
+	}).run(c16args)
+}
